@@ -25,6 +25,7 @@ def baselines(n, seed):
 
 def main():
     chk = Check("C07", level="fault_enumeration")
+    chk.nontrivial = lambda info: info.get("nfault", 0) >= 1      # the injected failure was actually reached
     chk.mc("GF_small.cfg" if chk.thorough else "GF_q_small.cfg")
     nb = 48 if chk.thorough else 12
     base = baselines(nb, chk.seed)
@@ -50,5 +51,6 @@ def main():
     chk.assumptions += ["faults are non-finite values (NaN / +inf) in a callback result and LinearSolverError at factorisation or solve; "
                         "wrong-but-finite values are out of scope", "validate_input is on (the default)"]
     return chk.finish(rule="for each baseline run the numbered sequence of callback evaluations and of factorisations/solves is recorded, "
-                           "then one run per position with a transient failure there, plus region-persistent failures; every trace is validated",
+                           "then one run per position with a transient failure there, plus region-persistent failures; every trace is validated; "
+                           "distinct_nontrivial counts distinct (baseline, fault position) runs in which the injected failure was reached",
                       extra_cov={"fault_positions": len(gs)})
